@@ -660,7 +660,7 @@ def enumerate_space(ctx, bases, txs):
     for si in range(len(sess)):
         seqs = [()]
         frontier = [()]
-        for _ in range(L if si < 6 else max(1, L - 1)):   # the three sessions added later get one level less
+        for _ in range(L if (si < 6 or sess[si][0] in I.FULL_DEPTH_SESSIONS) else max(1, L - 1)):   # most sessions added later get one level less
             frontier = [s + (a,) for s in frontier for a in range(A)]
             seqs += frontier
         for s in seqs:
@@ -705,7 +705,7 @@ def enumerate_space(ctx, bases, txs):
         "pair_rule": "all unordered pairs of single deviations on two different slots" + (
             " (extra-option pseudo slot excluded in quick)" if tier == "quick" else " (extra-option pseudo slot included)"),
         "interactive_sessions": [s[0] for s in sess], "command_alphabet": alpha, "command_alphabet_size": A,
-        "max_sequence_length": L, "max_sequence_length_rule": "sessions 1-6: L; the four sessions added later: L-1", "command_sequences": n_seq,
+        "max_sequence_length": L, "max_sequence_length_rule": "sessions 1-6 and %s: L; the other sessions added later: L-1" % sorted(I.FULL_DEPTH_SESSIONS), "command_sequences": n_seq,
         "exec_lines_with_two_operations": len(xlines), "exec_line_patterns": I.EXEC_PAIR_PATTERNS, "exec_line_cases": n_x,
         "tf_commands": len(tfc), "tf_rule": "each `tf fn args` alone on every session, and as (step,tf) (tf,step) (rewind,tf) (tf,rewind) " + (
             "on the first session" if tier == "quick" else "on every session"),
